@@ -456,7 +456,7 @@ class FFCXBackendAccess:
             if restriction == "-":
                 qp = self.symbols.quadrature_permutation[1]
 
-        if dof_index.dim == 1 and quadrature_index.dim == 1:
+        if tabledata.tensor_factors is None or (dof_index.dim == 1 and quadrature_index.dim == 1):
             symbols += [L.Symbol(tabledata.name, dtype=L.DataType.REAL)]
             return self.symbols.element_tables[tabledata.name][qp][entity][iq_global_index][
                 ic_global_index
